@@ -897,8 +897,52 @@ pub fn units() -> Vec<Unit> {
             TraitFn("RegionHandler", "DynamicChannelPlan", "channel_mask_update"),
         ],
     },
+    // C05 / C10: the RF configuration of the receive windows — `Mac::build_rf_config` (the data-rate lookup with its
+    // fallback to the RX2 data rate and `unwrap`), `rx2_rf_config` (the overrides of RXParamSetupReq / the join accept),
+    // `get_rxc_config`.  Abstract: the region (a record of the four lookups the methods call).  Reused, not emitted
+    // again: `BaseBandModulationParams::new` (Gen.Modulation), `Datarate`, `DR`, `Window` (Gen.Region).
+    Unit {
+        module: "Gen.MacRfFn",
+        file: "lorawan-device/src/mac/mod.rs",
+        more_files: vec!["lorawan-device/src/radio.rs", "lorawan-device/src/region/constants.rs", "lorawan-encoding/src/types.rs"],
+        imports: vec!["LoraVerif.Gen.Modulation", "LoraVerif.Gen.Region"],
+        items: vec![
+            ExternUnit("Gen.Modulation"),
+            ExternUnit("Gen.Region"),
+            Struct("Configuration"),
+            Raw(MAC_RF_RAW),
+            ExternStructRaw("RegionCfg", &[]),
+            Alias("region::Configuration", "RegionCfg"),
+            ExternStructRaw("Mac", &[("configuration", "Configuration"), ("region", "region::Configuration")]),
+            ExternFn("RegionCfg::get_datarate", "RegionCfg.get_datarate", &[("self", "RegionCfg"), ("dr", "u8")], "Option<Datarate>"),
+            ExternFnX("RegionCfg::get_rx_datarate", "RegionCfg.get_rx_datarate", &[("self", "RegionCfg"), ("tx_dr", "DR"), ("rx1_dr_offset", "u8"), ("window", "Window")], "DR", &[], true),
+            ExternFn("RegionCfg::get_coding_rate", "RegionCfg.get_coding_rate", &[("self", "RegionCfg")], "CodingRate"),
+            ExternFn("RegionCfg::get_rx2_frequency", "RegionCfg.get_rx2_frequency", &[("self", "RegionCfg")], "u32"),
+            Struct("RfConfig"),
+            EnumData("RxMode"),
+            Struct("RxConfig"),
+            Fn("Mac::build_rf_config"),
+            Fn("Mac::rx2_rf_config"),
+            Fn("Mac::get_rxc_config"),
+        ],
+    },
     ]
 }
+
+/// Lean text of the abstract part of `Gen.MacRfFn`
+const MAC_RF_RAW: &str = r#"/-- what the three methods observe of `region::Configuration`: the four lookups they call
+(`get_rx_datarate`: `none` = a panic inside the region's table lookup) -/
+structure RegionCfg where
+  get_datarate : Int → Option Datarate
+  get_rx_datarate : DR → Int → Window → Option DR
+  get_coding_rate : CodingRate
+  get_rx2_frequency : Int
+
+/-- the fields `configuration`, `region` of `Mac` (the others are not read) -/
+structure Mac where
+  configuration : Configuration
+  region : RegionCfg
+"#;
 
 /// Lean text of the abstract part of `Gen.SessionMacs`
 const SESSION_MACS_RAW1: &str = r#"/-- what `add_mac_command` observes of its `M: SerializableMacCommand` argument -/
